@@ -519,7 +519,48 @@ def oracle_search(ctx, corr, broken):
         msg = oracle_bytes(bs)
         if msg:
             return dict(kind="input", side="decode", bytes=bs.hex()), msg, "decode"
+    # 4. the same statement with assertions compiled away (`python -O`): code that only works while `assert`
+    #    statements execute is a failing configuration, not a failing value
+    found = optimised_oracle([describe(v) for v in boundary_values()
+                              if not has_overlimit_int(v) and depth_of(v) <= 200 and expressible(v)])
+    if found:
+        t, msg = found
+        return (dict(kind="input", side="encode", value=t, interpreter_flags="-O"), msg + " (under python -O)",
+                "encode-O:" + msg.split(" raised")[0][:40])
     return None
+
+
+def expressible(v):
+    try:
+        return typed_equal(valtext.from_text(valtext.to_text(v)), v)
+    except Exception:  # noqa
+        return False
+
+
+def optimised_oracle(texts):
+    """run oracle_value on the given values in a child interpreter started with -O; (text, message) of the
+    shortest failing one or None"""
+    import json
+    import os
+    import subprocess
+    here = os.path.dirname(os.path.abspath(__file__))
+    repo = os.environ.get("RPYC_REPO", "/repo")
+    env = dict(os.environ, PYTHONPATH=os.pathsep.join([repo, os.path.join(here, ".."), here]))
+    try:
+        p = subprocess.run([sys.executable, "-O", os.path.abspath(__file__), "--optimised-oracle"],
+                           input="\n".join(texts).encode(), stdout=subprocess.PIPE, stderr=subprocess.PIPE,
+                           env=env, timeout=300)
+    except subprocess.TimeoutExpired:
+        return None
+    best = None
+    for line in p.stdout.decode().splitlines():
+        try:
+            t, msg = json.loads(line)
+        except ValueError:
+            continue
+        if best is None or len(t) < len(best[0]):
+            best = (t, msg)
+    return best
 
 
 def replay(case):
@@ -530,9 +571,28 @@ def replay(case):
         out["implementation"] = st if st != "ok" else "ok " + valtext.canon(v)
         out["oracle"] = oracle_bytes(bs) or "holds"
         out["model"] = run_driver(["brine dec " + bs.hex()])[0]
+    elif case.get("interpreter_flags") == "-O":
+        out["oracle_under_python_-O"] = optimised_oracle([case["value"]]) or "holds"
+        v = valtext.from_text(case["value"])
+        out["implementation"] = impl_encode(v)
+        out["oracle"] = oracle_value(v) or "holds"
     else:
         v = valtext.from_text(case["value"])
         out["implementation"] = impl_encode(v)
         out["oracle"] = oracle_value(v) or "holds"
         out["model"] = run_driver(["brine dumpable " + case["value"], "brine enc " + case["value"]])
     return out
+
+
+if __name__ == "__main__" and "--optimised-oracle" in sys.argv:
+    import json
+    for _line in sys.stdin.read().splitlines():
+        try:
+            _v = valtext.from_text(_line)
+            _msg = oracle_value(_v)
+        except RecursionError:
+            continue
+        except Exception as _ex:  # noqa
+            _msg = "oracle crashed: %r" % (_ex,)
+        if _msg:
+            print(json.dumps([_line, _msg]))
